@@ -123,20 +123,20 @@ package remote
 //@   modifies log, loglen
 //@   ghost at entry: mp = arbitrary("(Array Int Int)"); nerr = 0
 //@   ghost at call Error#1: nerr = nerr + 1
-//@   ghost at call append#1 before: mp = store(mp, len(messages), i)
+//@   ghost at call append#1 before: mp = store(mp, len(messages), idx)
 //@   ghost at call Send#1 before: assert[C15.writer.envelope-carries-the-tables] arg0 != nil && arg0.Senders == senders && arg0.Targets == targets && arg0.TypeNames == typeNames && arg0.Messages == messages
 //@   ghost at call Send#1 before: assert[C15.writer.every-message-encoded-in-batch-order] forall(q, 0 <= q && q < len(messages) ==> 0 <= mp[q] && mp[q] < len(msgs) && encodes(messages[q], sdOf(msgs[mp[q]]), typeNames, senders, targets)) &&
 //@        forall(q1, q2, 0 <= q1 && q1 < q2 && q2 < len(messages) ==> mp[q1] < mp[q2])
 //@   ghost at call Send#1 before: assert[C15.writer.dropped-only-on-serialize-error-and-without-placeholder] len(messages) + nerr == len(msgs) && forall(q, 0 <= q && q < len(messages) ==> messages[q] != nil)
 //@   ghost at call Send#1 before: assert[C15.writer.senderless-message-arrives-without-sender@nil-sender-in-a-batch-with-senders] forall(q, 0 <= q && q < len(messages) ==> sdOf(msgs[mp[q]]).sender != nil || len(senders) == 0)
-//@   ghost at call Send#1: assert[C15.writer.one-envelope-per-batch] loglen == entry(loglen) + 1
+//@   ensures[C15.writer.one-envelope-per-batch] loglen == entry(loglen) + 1 && logPrefix(entry(loglen))
 //@   loop 1
-//@     invariant 0 <= i && i <= len(msgs) && len(messages) + nerr == i && nerr >= 0 && fresh(messages) && loglen == entry(loglen)
+//@     invariant 0 <= idx && idx <= len(msgs) && len(messages) + nerr == idx && nerr >= 0 && fresh(messages) && loglen == entry(loglen)
 //@     invariant s != nil && !isnil(s.serializer) && !isnil(s.stream) && !isnil(s.rawconn) && s.conn != nil
 //@     invariant tblS(typeLookup, typeNames) && tblP(senderLookup, senders) && tblP(targetLookup, targets) && fresh(typeLookup) && fresh(senderLookup) && fresh(targetLookup)
 //@     invariant fresh(typeNames) && fresh(senders) && fresh(targets) && typeNames.arr != messages.arr && senders.arr != targets.arr && senders.arr != messages.arr && targets.arr != messages.arr
 //@     invariant forall(k, 0 <= k && k < len(msgs) ==> msgs[k] == old(msgs[k]) && istype(msgs[k].Msg, *streamDeliver) && sdOf(msgs[k]) != nil && sdOf(msgs[k]).target != nil)
-//@     invariant[C15.writer.loop.positions] forall(q, 0 <= q && q < len(messages) ==> messages[q] != nil && fresh(messages[q]) && 0 <= mp[q] && mp[q] < i) && forall(q1, q2, 0 <= q1 && q1 < q2 && q2 < len(messages) ==> mp[q1] < mp[q2])
+//@     invariant[C15.writer.loop.positions] forall(q, 0 <= q && q < len(messages) ==> messages[q] != nil && fresh(messages[q]) && 0 <= mp[q] && mp[q] < idx) && forall(q1, q2, 0 <= q1 && q1 < q2 && q2 < len(messages) ==> mp[q1] < mp[q2])
 //@     invariant[C15.writer.loop.type] forall(q, 0 <= q && q < len(messages) ==> 0 <= messages[q].TypeNameIndex && messages[q].TypeNameIndex < len(typeNames) && typeNames[messages[q].TypeNameIndex] == tnameof(sdOf(msgs[mp[q]]).msg) && messages[q].Data == ser(sdOf(msgs[mp[q]]).msg))
 //@     invariant[C15.writer.loop.target] forall(q, 0 <= q && q < len(messages) ==> 0 <= messages[q].TargetIndex && messages[q].TargetIndex < len(targets) && pidkey(targets[messages[q].TargetIndex]) == pidkey(sdOf(msgs[mp[q]]).target))
 //@     invariant[C15.writer.loop.sender] forall(q, 0 <= q && q < len(messages) ==> (sdOf(msgs[mp[q]]).sender != nil ==> 0 <= messages[q].SenderIndex && messages[q].SenderIndex < len(senders) && pidkey(senders[messages[q].SenderIndex]) == pidkey(sdOf(msgs[mp[q]]).sender)) && (sdOf(msgs[mp[q]]).sender == nil ==> messages[q].SenderIndex == 0))
@@ -176,9 +176,11 @@ package remote
 //@   modifies mapof(s.streams)
 //@   ensures[C17.router.forgets-the-unreachable-address] forallS("Str", a, has(s.streams, a) == (old(has(s.streams, a)) && a != msg.ListenAddr)) && forallS("Str", a, has(s.streams, a) ==> s.streams[a] == old(s.streams[a]))
 
+//@ pred tableOK(s) := forallS("Str", a, has(s.streams, a) ==> s.streams[a] != nil)
+
 //@ func (s *streamRouter).deliverStream(msg)
 //@   props C17
-//@   requires s != nil && s.streams != nil && engInv(s.engine) && msg != nil && msg.target != nil
+//@   requires s != nil && s.streams != nil && engInv(s.engine) && msg != nil && msg.target != nil && tableOK(s)
 //@   modifies heap except private, mapof(s.streams), log, loglen
 //@   ghost at entry: spawned = false
 //@   ghost at call newStreamWriter#1 before: assert[C17.router.writer-for-the-target-address] arg0 == s.engine && arg1 == s.pid && arg2 == msg.target.Address
@@ -186,17 +188,22 @@ package remote
 //@   ghost at call Send#1 before: assert[C17.router.forwards-the-deliver-unchanged] arg0 == s.engine && arg1 == s.streams[msg.target.Address] && arg2 == msg && has(s.streams, msg.target.Address)
 //@   ghost at return#1: assert[C17.router.existing-writer-reused] old(has(s.streams, msg.target.Address)) ==> !spawned && s.streams[msg.target.Address] == old(s.streams[msg.target.Address])
 //@   ghost at return#1: assert[C17.router.one-writer-per-new-address] !old(has(s.streams, msg.target.Address)) ==> spawned
+//@   ensures[C17.router.table-holds-writers] tableOK(s)
+//@   ensures[C17.router.deliver-forwarded-last] loglen > entry(loglen) && sendEffect(s.engine, s.streams[msg.target.Address], msg, nil, loglen - 1, loglen)
 //@   ensures[C17.router.table] has(s.streams, msg.target.Address) && forallS("Str", a, a != msg.target.Address ==> has(s.streams, a) == old(has(s.streams, a)) && s.streams[a] == old(s.streams[a]))
 
 //@ func (s *streamRouter).Receive(ctx)
 //@   props C17
 //@   prune
-//@   requires s != nil && s.streams != nil && engInv(s.engine) && ctx != nil
+//@   requires s != nil && s.streams != nil && engInv(s.engine) && ctx != nil && tableOK(s)
 //@   requires istype(ctx.message, *streamDeliver) || istype(ctx.message, actor.RemoteUnreachableEvent)
 //@   requires istype(ctx.message, *streamDeliver) ==> ctx.message.(*streamDeliver) != nil && ctx.message.(*streamDeliver).target != nil
 //@   modifies heap except private, mapof(s.streams), log, loglen
 //@   ghost at call deliverStream#1 before: assert[C17.router.receive.deliver] arg0 == s && arg1 == ctx.message.(*streamDeliver)
 //@   ghost at call handleTerminateStream#1 before: assert[C17.router.receive.unreachable] arg0 == s && arg1 == ctx.message.(actor.RemoteUnreachableEvent)
+//@   ensures[C17.router.receive.deliver-forwarded] istype(old(ctx.message), *streamDeliver) ==> has(s.streams, old(ctx.message).(*streamDeliver).target.Address) && loglen > entry(loglen) &&
+//@        sendEffect(s.engine, s.streams[old(ctx.message).(*streamDeliver).target.Address], old(ctx.message).(*streamDeliver), nil, loglen - 1, loglen)
+//@   ensures[C17.router.receive.table-holds-writers] tableOK(s)
 //@   ensures[C17.router.receive.unreachable-forgotten] istype(old(ctx.message), actor.RemoteUnreachableEvent) ==> !has(s.streams, old(ctx.message).(actor.RemoteUnreachableEvent).ListenAddr)
 
 // Shutdown of a stream writer (dial failed or connection lost): the router is
@@ -214,6 +221,7 @@ package remote
 //@   modifies mapof(s.engine.Registry.lookup), log, loglen, stoppedByMe
 //@   ghost at call Send#1 before: assert[C17.writer.shutdown.tells-the-router] arg0 == s.engine && arg1 == s.routerPID && arg2 == actor.RemoteUnreachableEvent{ListenAddr: s.writeToAddr}
 //@   ghost at call BroadcastEvent#1 before: assert[C17.writer.shutdown.publishes-unreachable] arg0 == s.engine && arg1 == actor.RemoteUnreachableEvent{ListenAddr: s.writeToAddr}
+//@   ensures[C17.writer.shutdown.router-told-first] sendEffect(s.engine, s.routerPID, actor.RemoteUnreachableEvent{ListenAddr: s.writeToAddr}, nil, entry(loglen), loglen - 3)
 //@   ensures[C17.writer.shutdown.order] log[loglen - 1] == RegRemove(s.engine.Registry, s.pid.ID) && log[loglen - 2] == InboxStop(s.inbox) &&
 //@        log[loglen - 3] == Broadcast(s.engine, actor.RemoteUnreachableEvent{ListenAddr: s.writeToAddr}) && loglen >= entry(loglen) + 3 && logPrefix(entry(loglen))
 
